@@ -84,6 +84,8 @@ class Driver:
             raise
         except zigpy.exceptions.ControllerException:
             self.log.append(("done", rid, 4))
+        except BaseException as e:  # noqa
+            self.log.append(("done", rid, 9, type(e).__name__ + ": " + str(e)[:80]))
 
     # ---- events -----------------------------------------------------------------------------------
     def send(self, rid, kind, dst, ext, route):
@@ -471,6 +473,8 @@ class Check(PropertyCheck):
                         sendcmd[e[1]] = (e[2], e[3], e[4])
                 elif e[0] == "done":
                     rid, res = e[1], e[2]
+                    if res == 9:
+                        return f"request {rid} ended with {e[3]}: send_packet returns, raises a delivery error or a timeout, or is cancelled"
                     if in_lock == rid:
                         in_lock = None
                     if rid in sendcmd and sendcmd[rid][0] == 0 and rid in accepted and res in (1, 2):
@@ -484,6 +488,11 @@ class Check(PropertyCheck):
                         if mine and mine[0][3] == 0 and res == 2:
                             return (f"unicast {rid} was accepted and its confirmation reported failure, but the call ended with a timeout "
                                     f"instead of a delivery error")
+                    if res == 2 and rid in sendcmd and sendcmd[rid][0] == 0 and rid not in accepted:
+                        # a timeout is the outcome of an ACCEPTED unicast whose confirmation does not arrive; a message the
+                        # NCP refused, or was still too busy to take after the retries, ends in a delivery error
+                        return (f"unicast {rid} ended with a timeout although the NCP never accepted the message (refused / busy on "
+                                f"every attempt): that is a delivery error")
                     if res == 0 and rid in sendcmd and sendcmd[rid][0] == 0:
                         if rid not in accepted:
                             return f"unicast {rid} returned normally although the NCP never accepted the message"
